@@ -505,8 +505,14 @@ def gen_host_case(rng, idx):
     mode = 'real' if idx % 2 == 0 else 'scripted'
     credits = [rng.choice([1, 1, 1, 2, 5, 255]) for _ in range(sum(len(t) for t in tasks))]
     # the schedule: a seed for the per-turn choices, so the replay is self-contained
+    # two cases in five also cancel tasks at seeded points of the schedule (a caller queued on the
+    # semaphore, the owner of the outstanding command before / after its response, a finished task)
+    cancel_rate = [0, 12, 0, 25, 0][idx % 5]
     return {'kind': 'host', 'mode': mode, 'tasks': tasks, 'credits': credits, 'sched_seed': rng.below(1 << 32),
-            'script': None}
+            'script': None, 'cancel_rate': cancel_rate}
+
+
+LAST_CANCEL_KINDS = {}
 
 
 async def _run_host_case(case):
@@ -592,6 +598,11 @@ async def _run_host_case(case):
             trace.append(['call', c, cmd.op_code])
             try:
                 resp = await host.send_command(cmd)
+            except asyncio.CancelledError:
+                if not closing[0]:
+                    callers[c][1] = 'cancelled'
+                    trace.append(['cancelled', c])
+                raise
             except AssertionError:
                 callers[c][1] = 'assert'
                 trace.append(['failed', c])
@@ -603,6 +614,32 @@ async def _run_host_case(case):
             callers[c][1] = 'done'
             trace.append(['resumed', c, resp.command_opcode])
 
+    closing = [False]
+    cancel_kinds = {'queued': 0, 'owner-unanswered': 0, 'owner-answered': 0, 'finished': 0}
+
+    async def cancel_task(ti):
+        """task.cancel() on the ti-th started task, then let that task run to the end of its
+        cancellation before anything else happens (the model's Cancel step is atomic)"""
+        if ti >= len(tasks):
+            return
+        t = tasks[ti]
+        c = current.get(t)
+        if t.done():
+            t.cancel()              # cancel after completion: must be a no-op
+            cancel_kinds['finished'] += 1
+            return
+        if c is None or callers[c][1] != 'pending':
+            return                  # created in this very turn, has not called send_command yet
+        if host.pending_command is not None and any(e[0] == 'send' and e[1] == c for e in trace):
+            cancel_kinds['owner-answered' if host.pending_response.done() else 'owner-unanswered'] += 1
+        else:
+            cancel_kinds['queued'] += 1
+        trace.append(['cancel', c])
+        t.cancel()
+        await asyncio.sleep(0)
+        await asyncio.sleep(0)
+
+    cancel_rate = case.get('cancel_rate', 0)
     pending_tasks = list(case['tasks'])
     tasks = []
     budget = 60 * (sum(len(t) for t in case['tasks']) + 4)
@@ -624,6 +661,11 @@ async def _run_host_case(case):
             elif act[0] == 'drop' and to_ctrl:
                 to_ctrl.pop(0)
                 trace.append(['drop'])
+            elif act[0] == 'cancel':
+                await cancel_task(act[1])
+            elif act[0] == 'hostcancel' and from_ctrl:
+                deliver_to_host()           # the future is completed ...
+                await cancel_task(act[1])   # ... and its task cancelled before it runs again
         else:
             if pending_tasks and rng.chance(1, 2):
                 tasks.append(asyncio.ensure_future(task_body(pending_tasks.pop(0))))
@@ -631,42 +673,68 @@ async def _run_host_case(case):
                 deliver_to_ctrl()
             if from_ctrl and rng.chance(1, 2):
                 deliver_to_host()
+            if cancel_rate and tasks and rng.chance(cancel_rate, 100):
+                await cancel_task(rng.below(len(tasks)))
         if not pending_tasks and not script and all(t.done() for t in tasks) and not to_ctrl and not from_ctrl:
             break
         if steps > budget:
             hung = True
             break
+    closing[0] = True
     for t in tasks:
         if not t.done():
             t.cancel()
     await asyncio.sleep(0)
+    LAST_CANCEL_KINDS.clear()
+    LAST_CANCEL_KINDS.update(cancel_kinds)
     return trace, callers, hung
 
 
 def host_oracle(trace, callers, hung, expect_block=False):
-    """The property over the boundary trace only."""
-    outstanding = 0
+    """The property over the boundary trace only: never two commands outstanding at the
+    controller boundary; each caller that is not cancelled resumes with the response to its own
+    opcode; no caller that is not cancelled is left waiting.  A failure that follows the
+    cancellation of the caller owning a still unanswered command is reported under the
+    signature of that witness class (known finding D03m)."""
+    unanswered = []             # callers whose command is with the controller, oldest first
     ops = {}
+    owner_cancel = False
+
+    def sig(s):
+        return 'B:owner-cancelled-while-outstanding' if owner_cancel else s
+
     for ev in trace:
         if ev[0] == 'call':
             ops[ev[1]] = ev[2]
         elif ev[0] == 'send':
-            outstanding += 1
-            if outstanding > 1:
-                return ('B:two-outstanding', f'command {ev[2]:#06x} of caller {ev[1]} sent while another command is outstanding')
+            unanswered.append(ev[1])
+            if len(unanswered) > 1:
+                return (sig('B:two-outstanding'), f'command {ev[2]:#06x} of caller {ev[1]} sent while the command of caller '
+                                                  f'{unanswered[0]} is outstanding')
         elif ev[0] == 'deliver':
-            outstanding -= 1
+            if unanswered:
+                unanswered.pop(0)
+        elif ev[0] == 'drop':
+            if unanswered:
+                unanswered.pop(0)
+        elif ev[0] == 'cancel':
+            if ev[1] in unanswered:
+                owner_cancel = True
         elif ev[0] == 'resumed':
             if ev[2] != ops.get(ev[1]):
-                return ('B:wrong-response', f'caller {ev[1]} sent {ops.get(ev[1]):#06x} and was resumed with the response to {ev[2]:#06x}')
+                return (sig('B:wrong-response'), f'caller {ev[1]} sent {ops.get(ev[1]):#06x} and was resumed with the response to {ev[2]:#06x}')
         elif ev[0] == 'failed':
-            return ('B:caller-failed', f'send_command of caller {ev[1]} raised ({callers[ev[1]][1]})')
+            return (sig('B:caller-failed'), f'send_command of caller {ev[1]} raised ({callers[ev[1]][1]})')
         elif ev[0] == 'host-error':
-            return ('B:host-error', f'Host.on_packet raised {ev[1]} on a Command Complete/Status event')
+            return (sig('B:host-error'), f'Host.on_packet raised {ev[1]} on a Command Complete/Status event')
+    cancelled = {ev[1] for ev in trace if ev[0] == 'cancel'}
+    for c, (op, st) in callers.items():
+        if st == 'cancelled' and c not in cancelled:
+            return (sig('B:spurious-cancel'), f'send_command of caller {c} raised CancelledError although its task was not cancelled')
     if not expect_block:
         waiting = sorted(c for c, (op, st) in callers.items() if st == 'pending')
         if hung or waiting:
-            return ('B:left-waiting', f'callers {waiting} still waiting after the loop ran to its budget; trace tail {trace[-6:]}')
+            return (sig('B:left-waiting'), f'callers {waiting} still waiting after the loop ran to its budget; trace tail {trace[-6:]}')
     return None
 
 
@@ -697,6 +765,10 @@ def trace_to_labels(trace):
         elif ev[0] == 'resumed':
             labels.append(f'Resume {coq_z(ev[1])}')
             obs.append((1, ev[1], ev[2]))
+        elif ev[0] == 'cancel':
+            labels.append(f'Cancel {coq_z(ev[1])}')
+        elif ev[0] == 'cancelled':
+            obs.append((3, ev[1], 0))
         elif ev[0] == 'failed':
             # the failing Acquire produced no 'send': insert it
             labels.append(f'Acquire {coq_z(ev[1])}')
@@ -720,6 +792,32 @@ B_SCRIPTED = [
     # zero credits and no flow control event: the second caller stays blocked (model agrees)
     {'name': 'zero-credit-blocks', 'tasks': [[7], [8]], 'credits': [0, 1], 'expect_block': True,
      'script': [['start'], ['start'], ['ctrl'], ['host'], ['idle'], ['idle'], ['idle'], ['idle']]},
+    # cancellation of a caller queued on the semaphore behind an outstanding command (whose
+    # response is held back): nothing but that caller may change; the next caller waits its turn
+    {'name': 'cancel-queued-caller', 'tasks': [[0], [2], [5]], 'credits': [1, 1, 1], 'expect_block': False,
+     'script': [['start'], ['start'], ['idle'], ['cancel', 1], ['start'], ['idle'], ['ctrl'], ['host'], ['idle'],
+                ['idle'], ['ctrl'], ['host'], ['idle'], ['idle']]},
+    # two queued callers cancelled, one of them after the semaphore was handed to it
+    {'name': 'cancel-two-queued', 'tasks': [[0], [2], [5], [7]], 'credits': [1, 1, 1, 1], 'expect_block': False,
+     'script': [['start'], ['start'], ['start'], ['start'], ['idle'], ['cancel', 2], ['ctrl'], ['hostcancel', 1],
+                ['idle'], ['idle'], ['ctrl'], ['host'], ['idle'], ['idle'], ['ctrl'], ['host'], ['idle'], ['idle']]},
+    # the owner is cancelled after its response arrived but before its task ran again
+    {'name': 'cancel-owner-after-response', 'tasks': [[0], [2]], 'credits': [1, 1], 'expect_block': False,
+     'script': [['start'], ['start'], ['ctrl'], ['hostcancel', 0], ['idle'], ['ctrl'], ['host'], ['idle'], ['idle']]},
+    # a finished task is cancelled
+    {'name': 'cancel-after-completion', 'tasks': [[0], [2]], 'credits': [1, 1], 'expect_block': False,
+     'script': [['start'], ['ctrl'], ['host'], ['idle'], ['idle'], ['cancel', 0], ['start'], ['ctrl'], ['host'],
+                ['idle'], ['idle']]},
+    # the owner is cancelled while its command is unanswered, nobody else sends before the late
+    # response: the response is dropped, later callers are served
+    {'name': 'cancel-owner-unanswered-alone', 'tasks': [[0], [2]], 'credits': [1, 1], 'expect_block': False,
+     'script': [['start'], ['idle'], ['cancel', 0], ['ctrl'], ['host'], ['idle'], ['start'], ['ctrl'], ['host'],
+                ['idle'], ['idle']]},
+    # known finding D03m: the owner is cancelled while its command is unanswered and another caller
+    # is queued: it sends at once (two outstanding) and gets the cancelled caller's response
+    {'name': 'cancel-owner-unanswered-queued', 'tasks': [[0], [2]], 'credits': [1, 1], 'expect_block': False,
+     'script': [['start'], ['start'], ['idle'], ['cancel', 0], ['idle'], ['ctrl'], ['host'], ['idle'], ['ctrl'],
+                ['host'], ['idle'], ['idle']]},
     # a swallowed command blocks everybody (the D03a/b behaviour seen from the host)
     {'name': 'dropped-command-blocks', 'tasks': [[10], [0]], 'credits': [1, 1], 'expect_block': True,
      'script': [['start'], ['start'], ['drop'], ['idle'], ['idle'], ['idle']]},
@@ -731,7 +829,8 @@ def campaign_host(ctx):
     cases = []
     for sc in B_SCRIPTED:
         cases.append({'kind': 'host', 'mode': 'scripted', 'tasks': sc['tasks'], 'credits': sc['credits'],
-                      'sched_seed': 0, 'script': sc['script'], 'expect_block': sc['expect_block'], 'name': sc['name']})
+                      'sched_seed': 0, 'script': sc['script'], 'expect_block': sc['expect_block'], 'name': sc['name'],
+                      'cancel_rate': 0})
     for f in sorted(os.listdir(CORPUS)) if os.path.isdir(CORPUS) else []:
         with open(os.path.join(CORPUS, f)) as fh:
             obj = json.load(fh)
@@ -744,18 +843,22 @@ def campaign_host(ctx):
     for case in cases:
         (trace, callers, hung), errors = run_async(_run_host_case, case)
         labels, obs = trace_to_labels(trace)
-        runs.append((case, trace, callers, hung, obs, errors))
+        runs.append((case, trace, callers, hung, obs, errors, dict(LAST_CANCEL_KINDS)))
         exprs.append(f'accept_obs {labels}')
     model = ctx.coq_eval(['Model.HostCmd'], exprs)
-    for (case, trace, callers, hung, obs, errors), m in zip(runs, model):
+    for (case, trace, callers, hung, obs, errors, ckinds), m in zip(runs, model):
         ncallers = len(callers)
-        ctx.case(('B', case['mode'], case['tasks'], case['credits'], case['sched_seed'], case.get('script')),
+        ctx.case(('B', case['mode'], case['tasks'], case['credits'], case['sched_seed'], case.get('script'), case.get('cancel_rate')),
                  ncallers >= 2, {'kind': 'host', 'mode': case['mode'], 'tasks': case['tasks']} if ctx.evaluations % 200 == 3 else None)
         ctx.count('B.cases')
         ctx.count('B.mode.' + case['mode'])
         ctx.count('B.callers', ncallers)
         ctx.count(f'B.tasks.{len(case["tasks"])}')
         ctx.count('B.callback_errors', len(errors))
+        for k, v in ckinds.items():
+            ctx.count('B.cancel.' + k, v)
+        if case.get('cancel_rate') or any(a[0] in ('cancel', 'hostcancel') for a in (case.get('script') or [])):
+            ctx.count('B.cases_with_cancellation')
         replay = dict(case)
         bad = host_oracle(trace, callers, hung, case.get('expect_block', False))
         if bad:
@@ -765,11 +868,12 @@ def campaign_host(ctx):
             ctx.disagree('HostCmd trace acceptance', replay, 'trace rejected by the model', trace[-8:])
             continue
         mobs, mphases, (mq, mall, mout) = m[1]
-        impl_phases = sorted([c, {'pending': None, 'done': 2, 'assert': 3}.get(st, 3)] for c, (op, st) in callers.items())
-        model_phases = sorted([c, 2 if ph == 2 else (3 if ph == 3 else None)] for (c, ph, r) in mphases)
+        impl_phases = sorted([c, {'pending': None, 'done': 2, 'assert': 3, 'cancelled': 4}.get(st, 3)]
+                             for c, (op, st) in callers.items())
+        model_phases = sorted([c, ph if ph in (2, 3, 4) else None] for (c, ph, r) in mphases)
         if [tuple(x) for x in mobs] != obs or impl_phases != model_phases:
             ctx.disagree('HostCmd observations', replay, [mobs, model_phases], [obs, impl_phases])
-        all_done = all(st == 'done' for op, st in callers.values())
+        all_done = all(st in ('done', 'cancelled') for op, st in callers.values())
         if bool(mall) != all_done:
             ctx.disagree('HostCmd all_answered', replay, mall, all_done)
 
